@@ -15,6 +15,8 @@ structure RefD where
   docs : List Nat              -- doc number per hit
   distinct : Bool              -- the declared sort order distinguishes all matches
   ranking : List Match         -- `sort declared ms`, computed once per reference list
+  pranking : List Nat          -- hit numbers in the PROPERTY-level order (`cmpPropKeys` on present/missing values, then hit number)
+  beyond : Bool                -- some present value is not strictly between lowTerm and highTerm (`keyInRange` fails)
 
 structure ReqD where
   ref : String
@@ -104,6 +106,21 @@ def parseImplKeys (impl : String) : List (Nat × String) :=
       | _ => none
   | _ => []
 
+/-- the PROPERTY-level ranking: missing values strictly first / last as requested, present values in byte
+order (`cmpPropKeys`), ties by hit number; insertion sort on (hit number, present-or-missing values) -/
+def propLt (so : SortOrder) (a b : Nat × List (Option Bytes)) : Bool :=
+  match cmpPropKeys so a.2 b.2 with
+  | .lt => true
+  | .gt => false
+  | .eq => a.1 < b.1
+
+def propInsert (so : SortOrder) (d : Nat × List (Option Bytes)) : List (Nat × List (Option Bytes)) → List (Nat × List (Option Bytes))
+  | [] => [d]
+  | x :: xs => if propLt so d x then d :: x :: xs else x :: propInsert so d xs
+
+def propSort (so : SortOrder) (l : List (Nat × List (Option Bytes))) : List (Nat × List (Option Bytes)) :=
+  l.foldr (propInsert so) []
+
 /-- the loop of `Collect`, recording which path each match took -/
 def runTraced (c : Coll) (ms : List Match) : Coll × List Branch :=
   ms.foldl (fun (acc : Coll × List Branch) d =>
@@ -147,6 +164,13 @@ def doSearch (st : St) (refName : String) (r : RefD) (req : Request) (kind : Kin
     | some (ih, ifp) =>
       match expected with
       | some e =>
+        -- a plain top-N window is judged by the PROPERTY-level ranking (missing block strictly first / last)
+        let pe := (r.pranking.drop req.from_).take req.n
+        if kind == .topn && ih != pe then
+          (if r.beyond && ih == hitNums e
+           then s!"bad:present-value-beyond-missing-marker{cause} expected={numsToStr pe}"
+           else s!"bad:not-the-slice{cause} expected={numsToStr pe}")
+        else
         if ih != hitNums e then s!"bad:not-the-slice{cause} expected={numsToStr (hitNums e)}"
         else if foreignKeys then s!"bad:hit-carries-another-sort-value{cause}"
         else if ifp != fingerprint r.spec declared then s!"bad:request-sort-order-changed{cause}"
@@ -164,6 +188,7 @@ def doSearch (st : St) (refName : String) (r : RefD) (req : Request) (kind : Kin
     (if !r.distinct then ["ties"] else ["distinct"]) ++
     (if kind == .before && !r.distinct then ["before-ties-unjudged"] else []) ++
     (if cause != "" then ["sort-reversed"] else []) ++
+    (if r.beyond then ["present-value-beyond-marker"] else ["present-values-in-range"]) ++
     (if panics then ["short-after-key"] else [])
   let chain' := st.chain.map fun c =>
     if c.ref != refName then c else
@@ -235,8 +260,13 @@ def c09step (st : St) (op : String) (impl : String) : St × String :=
       if impl == "none" then [] else (impl.splitOn ";").map fun e => (parseKeys e).getD []
     let ms := (implKeys.zip (List.range implKeys.length)).map fun (k, i) => Match.mk (i + 1) k
     let declared := declaredOf spec
+    -- present-or-missing values of every match (from the raw field values; a present value is the key itself)
+    let pkeys : List (List (Option Bytes)) := rows.map fun (_, vs) =>
+      (spec.zip vs).map fun ((_, s), v) => if v == "~" then none else rawKey s v
+    let beyond := pkeys.any fun ks => ks.any fun k => match k with | some v => !keyInRange v | none => false
+    let pranking := (propSort declared ((List.range pkeys.length).map (· + 1) |>.zip pkeys)).map (·.1)
     let rd : RefD := { spec, ms, docs := rows.map (·.1), distinct := decide (KeysDistinct declared ms),
-                       ranking := sort declared ms }
+                       ranking := sort declared ms, pranking, beyond }
     let wf := implKeys.all fun k => k.length == spec.length
     ({ st with refs := (name, rd) :: st.refs },
       modelRes ++ sep ++ (if !wf then "bad:sort-value-has-wrong-number-of-keys"
